@@ -128,8 +128,42 @@ MUTANTS = {
 }
 
 
+# Property-PRESERVING changes that look suspicious: both checks must stay silent.
+BENIGN = {
+    "benign_global_parse_lock": (
+        [("pycparser/c_parser.py", "from dataclasses import dataclass\n", "import threading\nfrom dataclasses import dataclass\n"),
+         ("pycparser/c_parser.py", "class ParseError(Exception):\n    pass\n", "class ParseError(Exception):\n    pass\n\n\n_PARSE_LOCK = threading.Lock()\n"),
+         ("pycparser/c_parser.py",
+          "        self._scope_stack = [dict()]\n        self.clex.input(text, filename)\n        self._tokens = _TokenStream(self.clex)\n\n        ast = self._parse_translation_unit_or_empty()\n        tok = self._peek()\n        if tok is not None:\n            self._parse_error(f\"before: {tok.value}\", self._tok_coord(tok))\n        return ast\n",
+          "        with _PARSE_LOCK:\n            self._scope_stack = [dict()]\n            self.clex.input(text, filename)\n            self._tokens = _TokenStream(self.clex)\n\n            ast = self._parse_translation_unit_or_empty()\n            tok = self._peek()\n            if tok is not None:\n                self._parse_error(f\"before: {tok.value}\", self._tok_coord(tok))\n            return ast\n")],
+        "a module-level lock serialises parse(): parses cannot overlap, results are unchanged",
+    ),
+    "benign_pure_module_memo": (
+        [("pycparser/c_lexer.py", "@dataclass(slots=True)\nclass Token:", "_kw_memo: Dict[str, str] = {}\n\n\n@dataclass(slots=True)\nclass Token:"),
+         ("pycparser/c_lexer.py", "                tok_type = _keyword_map.get(value, \"ID\")\n",
+          "                tok_type = _kw_memo.get(value)\n                if tok_type is None:\n                    tok_type = _kw_memo[value] = _keyword_map.get(value, \"ID\")\n")],
+        "module-level memo of a pure function of its key (keyword classification): shared, but cannot change a result; changes line-event counts",
+    ),
+    "benign_instance_typedef_cache": (
+        [("pycparser/c_parser.py", "        self._scope_stack = [dict()]\n        self.clex.input(text, filename)\n",
+          "        self._scope_stack = [dict()]\n        self._tcache = {}\n        self.clex.input(text, filename)\n"),
+         ("pycparser/c_parser.py", "        self._scope_stack.append(dict())\n", "        self._scope_stack.append(dict())\n        self._tcache = {}\n"),
+         ("pycparser/c_parser.py", "        assert len(self._scope_stack) > 1\n        self._scope_stack.pop()\n", "        assert len(self._scope_stack) > 1\n        self._scope_stack.pop()\n        self._tcache = {}\n"),
+         ("pycparser/c_parser.py", "        self._scope_stack[-1][name] = True\n", "        self._scope_stack[-1][name] = True\n        self._tcache = {}\n"),
+         ("pycparser/c_parser.py", "        self._scope_stack[-1][name] = False\n", "        self._scope_stack[-1][name] = False\n        self._tcache = {}\n"),
+         ("pycparser/c_parser.py", "        \"\"\"Is *name* a typedef-name in the current scope?\"\"\"\n        for scope in reversed(self._scope_stack):\n            # If name is an identifier in this scope it shadows typedefs in\n            # higher scopes.\n            if name in scope:\n                return scope[name]\n        return False\n",
+          "        \"\"\"Is *name* a typedef-name in the current scope?\"\"\"\n        cache = self.__dict__.setdefault(\"_tcache\", {})\n        r = cache.get(name)\n        if r is not None:\n            return r\n        r = False\n        for scope in reversed(self._scope_stack):\n            if name in scope:\n                r = scope[name]\n                break\n        cache[name] = r\n        return r\n")],
+        "per-instance typedef look-up memo that IS invalidated on every scope change and at the start of parse()",
+    ),
+}
+
+
 def apply_mutant(copy, name):
-    props, patches, note = MUTANTS[name]
+    if name in BENIGN:
+        patches, note = BENIGN[name]
+        props = ["C12", "C13"]
+    else:
+        props, patches, note = MUTANTS[name]
     for fn, old, new in patches:
         p = os.path.join(copy, fn)
         s = open(p, encoding="utf-8").read()
@@ -158,7 +192,7 @@ def run_suite(copy):
 
 def main(args):
     repo = os.path.realpath(args.repo)
-    names = [n for n in (args.mutants.split(",") if args.mutants else MUTANTS)]
+    names = [n for n in (args.mutants.split(",") if args.mutants else list(MUTANTS) + list(BENIGN))]
     budget = args.budget or "30"
     check = os.path.join(VERIF_DIR, "check")
     ok = True
@@ -174,6 +208,15 @@ def main(args):
                 dt = time.time() - t0
                 m = re.search(r"^VIOLATION property=(\S+) replay=(\S+)", p.stdout, re.M)
                 caught = p.returncode == 1 and m is not None
+                if name in BENIGN:
+                    silent = p.returncode == 0 and m is None
+                    rows.append((name, prop, passed, failed, silent))
+                    print("benign %-32s %s suite=%d/%d silent=%s (exit %d) %.0fs" % (name, prop, passed, passed + failed if passed >= 0 else -1, silent, p.returncode, dt))
+                    sys.stdout.flush()
+                    if not silent:
+                        ok = False
+                        print("   output tail: " + "\n".join(p.stdout.splitlines()[-5:])[:1500])
+                    continue
                 replayed = False
                 kind = ""
                 if caught:
@@ -197,5 +240,5 @@ def main(args):
                     print("   output tail: " + tail[:1500])
         finally:
             shutil.rmtree(d, ignore_errors=True)
-    print("selftest: %s (%d mutant x property pairs)" % ("all caught" if ok else "SOME MISSED", len(rows)))
+    print("selftest: %s (%d mutant x property pairs)" % ("all mutants caught, all benign changes silent" if ok else "SOME MISSED OR FALSE ALARM", len(rows)))
     return 0 if ok else 1
